@@ -152,7 +152,7 @@ Proof.
   intros [Hsp Hfp Hfr Hso Hme Hall].
   destruct s as [b c m p f fr ol h n hd k ou].
   cbn [base cap mem sp fp frames opens heap nheap handles nh out] in *.
-  destruct o as [v| |i|i v|i|x|x v|i|a| |nb|i|a lc|a lc].
+  destruct o as [v| |i|i v|i|x|x v|i|a| |nb|i|a lc|a lc|].
   - (* push *) constructor; cbn -[Z.mul Z.add Z.sub]; auto. replace (p + W) with (p + W * 1) by lia. apply aligned_add; assumption.
   - (* pop *) constructor; cbn -[Z.mul Z.add Z.sub]; auto. replace (p - W) with (p - W * 1) by lia. apply aligned_sub; assumption.
   - constructor; cbn -[Z.mul Z.add Z.sub]; auto.
@@ -227,6 +227,13 @@ Proof.
     constructor; cbn -[Z.mul Z.add Z.sub]; auto. apply aligned_sub; assumption.
   - (* tail call, as found *)
     constructor; cbn -[Z.mul Z.add Z.sub]; auto. apply aligned_sub; assumption.
+  - (* error unwinding of one frame *)
+    cbn [step]. destruct (close_to f m h ol) as [h' ol'] eqn:E.
+    destruct (close_to_oinv _ _ b _ _ _ _ n Hso Hme Hall E) as [A [B C]].
+    constructor; cbn -[Z.mul Z.add Z.sub]; auto.
+    + replace (f + W) with (f + W * 1) by lia. apply aligned_add; assumption.
+    + destruct fr as [|g fr']; cbn; [assumption|]. inversion Hfr; assumption.
+    + destruct fr as [|g fr']; cbn; [constructor|]. inversion Hfr; assumption.
 Qed.
 
 Lemma init_oinv b c : OInv (init_st b c).
@@ -303,7 +310,7 @@ Qed.
 Definition alphabet : list op :=
   [OPush 1; OPop; OGetLocal 0; OGetLocal 1; OSetLocal 0 7; OSetLocal 1 8; OCapture 0; OCapture 1;
    OGetUp 0; OGetUp 1; OSetUp 0 5; OSetUp 1 6; OClose 0; OClose 1; OCall 1; OCall 2; ORet; OGrow 5000; OGrow 1048;
-   ONewVar 0; ONewVar 1; OTailCall 1 1; OTailCall 1 2].
+   ONewVar 0; ONewVar 1; OTailCall 1 1; OTailCall 1 2; OUnwind].
 
 Definition BOUND : nat := 5.
 
@@ -361,4 +368,35 @@ Lemma tailcall_without_close :
   out (run (init_st 1000 8) tailcall_witness) = [3; 3] /\
   sout (srun init_sst tailcall_witness) = [3; 3] /\
   out (run (init_st 1000 8) (map as_found tailcall_witness)) = [9; 2].
+Proof. repeat split; vm_compute; reflexivity. Qed.
+
+(* error unwinding: an error thrown in a callee is caught in the frame that holds a captured local which is
+   still in scope.  rethrow discards the callee's frame (OUnwind) and pushes stack trace + error; the handler
+   pops them (and the slot the discarded frame left behind); afterwards the frame writes the local and the
+   closure reads it.  Closing from the POPPED frame's base leaves the caller's upvalue open (reads agree with
+   the spec); closing from the caller's restored frame pointer closes it: the closure keeps a stale copy. *)
+Definition unwind_witness : list op :=
+  [OPush 0; OPush 3; OCapture 1; OPush 5; OCall 1; OPush 7; OUnwind; OPush 0; OPush 8; OPop; OPop; OPop;
+   OSetLocal 1 9; OGetUp 0; OSetUp 0 11; OGetLocal 1].
+
+Lemma unwind_close_from_caller :
+  D init_sst unwind_witness = true /\
+  fits_run (init_st 1000 16) unwind_witness = true /\
+  out (run (init_st 1000 16) unwind_witness) = [11; 9] /\
+  sout (srun init_sst unwind_witness) = [11; 9] /\
+  out (run_caller_close (init_st 1000 16) unwind_witness) = [9; 3].
+Proof. repeat split; vm_compute; reflexivity. Qed.
+
+(* the error crosses two frames before it is caught: the intermediate frame's captured local dies with its
+   frame (closed with the right value), the catching frame's stays shared *)
+Definition unwind_witness2 : list op :=
+  [OPush 0; OPush 3; OCapture 1; OPush 5; OCall 1; OPush 6; OCapture 1; OPush 4; OCall 1; OSetUp 1 60; OPush 7;
+   OUnwind; OUnwind; OPush 0; OPush 8; OPop; OPop; OPop; OSetLocal 1 9; OGetUp 0; OGetUp 1].
+
+Lemma unwind_two_frames :
+  D init_sst unwind_witness2 = true /\
+  fits_run (init_st 1000 16) unwind_witness2 = true /\
+  out (run (init_st 1000 16) unwind_witness2) = [60; 9] /\
+  sout (srun init_sst unwind_witness2) = [60; 9] /\
+  out (run_caller_close (init_st 1000 16) unwind_witness2) = [60; 3].
 Proof. repeat split; vm_compute; reflexivity. Qed.
